@@ -1206,8 +1206,10 @@ func (self *ArbiterVoter) DoCommit() error {
 	})
 
 	if len(responses) < len(self.manager.members)/2+1 {
-		self.proposalHost = ""
-		self.proposalFromHost = ""
+		if self.proposalFromHost == self.manager.ownMember.host {
+			self.proposalHost = ""
+			self.proposalFromHost = ""
+		}
 		self.manager.slock.Log().Errorf("Arbier voter do commit fail")
 		return errors.New("member accept proposal count too small")
 	}
